@@ -20,6 +20,43 @@ Oracles at quiescence afterwards
             disconnection the controller keeps no CIS / SCO link attached to the dead ACL, every CisLink /
             ScoLink object that had been established got exactly one 'disconnection' event, and
             create_cis / accept_cis_request / CisLink.disconnect / drain waiters are finished
+  handles   (every run) the connection handles each controller announces, kept by an independent ledger fed with the raw
+            HCI events (vlib/ref_hci_links.py): one handle names one link, whatever its kind
+
+Kind 'multi' - SEVERAL links at once on one device (three devices; 18 topologies: two ACLs to different peers or to the
+same peer over both transports; ACL + eSCO + another ACL; ACL + CIS + another ACL; both; the same CIG / CIS identifiers
+on two ACLs of one device). For every link of the topology as the victim x 5 endings (disconnect from device 0's side, from
+the peer, from both at once; HCI transport of device 0 / of the peer lost): the victim is torn down, then made again (the
+lowest free handle is handed out again), then everything is torn down link by link; plus seeded walks over the same
+operations. After EVERY step, at quiescence, with the harness's own record of which links it made and closed:
+  tables    per device and link kind, the handles announced over HCI (ledger), host table, device table and controller
+            table are the same set, and as many as the links that should be up; after a transport loss host and device
+            tables are empty
+  objects   the device table still holds the very object each live link was reported with; a live link got no
+            'disconnection' event, a closed one exactly one
+  handles   no handle is announced while it still names another live link (or is reserved for a CIS)
+  reports   a new ACL is reported by exactly one 'connection' event per device, with the addresses of the two ends that the
+            harness connected (and the role, for LE)
+  data      an L2CAP PDU sent on every live ACL, both ways, arrives once, at the other end of THAT link, on its handle
+  waiter    disconnect() of any link ends; leftover: as above for the links that just went
+
+Kind 'order' - event orders and failure reports a controller may choose that bumble's virtual controller never produces;
+the rig's pipes reorder / answer / inject HCI packets (class AdvOrder, class Answered):
+  ext-adv             peripheral with LE Extended Advertising, 3 consecutive connections (all on the same handle) through
+                      a set with its own random address / a set on the public address / start_advertising(); LE Advertising
+                      Set Terminated before the Connection Complete, after it, or after the first data packet of the new
+                      connection; every connection is reported once with the address of the set it came in through,
+                      nothing keyed by the handle survives the connection
+  refused-disconnect  Command Status(pending) then Disconnection Complete with a failure status for an LE ACL, BR/EDR ACL,
+                      eSCO or CIS link, from either end: disconnect() and sustain() end, the link and a bystander link
+                      stay whole (tables, data), a later disconnection and re-connection work
+  failed-connect      LE (Enhanced) Connection Complete / Connection Complete with a failure status for a pending
+                      connect(), and for an incoming BR/EDR connection the host accepted: connect() ends with an error,
+                      nothing is left (pending_connections, le_connecting), the next connection of the same two devices
+                      is reported once with the right addresses
+  failed-security     Encryption Change (v1, v2), Encryption Key Refresh Complete, Authentication Complete with a failure
+                      status: encrypt() / authenticate() end (key refresh: at the latest when the link goes), the link
+                      stays whole
 """
 from __future__ import annotations
 
@@ -33,7 +70,10 @@ ID = 'C16'
 LEVEL = 'fault_enumeration'
 RULE = ('one case per (procedure, cut kind); inside it every HCI-message index of the dry run (stride 1 thorough, '
         'coarser for long procedures in quick) gets its own fresh rig and run; a run is non-trivial when the cut '
-        'landed before the procedure finished; distinct = (procedure, cut kind, index)')
+        'landed before the procedure finished; distinct = (procedure, cut kind, index). '
+        'multi: one case per topology, inside it one history per (victim link, ending), each on a fresh 3-device rig; '
+        'distinct = (topology, victim, ending); seeded walks: distinct = seed. '
+        'order: one case per (scenario, variant, failure status, delay); distinct = that tuple')
 ASSUMPTIONS = [
     'after a transport loss the controller (beyond the lost transport) and the remote side are not judged',
     'a waiter may end with a result, an exception or a cancellation; only "still pending at T_v" is a violation',
@@ -42,14 +82,32 @@ ASSUMPTIONS = [
     'the virtual controller has no BIG support, so BIS links cannot be created; host.bis_links / device.bis_links are only '
     'checked to be empty',
     'a controller SCO entry with handle 0 is its placeholder for a request the host has not answered, not a link',
+    'a procedure that ends with the stack\'s own TimeoutError (GATT 30 s) has ended with an error: an indication whose '
+    'confirmation can no longer come is released by that timeout, which the property accepts',
+    'multi: after a transport loss the far ends of the lost device\'s links are still up as far as their controllers know; '
+    'they are judged as up there, not pinged, and can be disconnected from the far end',
+    'multi / order: the virtual controller carries no SCO or ISO data, so "data still flows" is judged on ACL links',
+    'order: both orders of LE Advertising Set Terminated and Connection Complete are taken as legal (bumble handles both); '
+    'a Disconnection Complete with a failure status leaves the link up; encrypt() is only required to end with the link '
+    'when the controller answers with Encryption Key Refresh Complete (it does not listen for that event)',
+    'the order of the descriptors in plan() is a load-balancing choice (case k runs in process k mod 16), nothing else',
 ]
+MULTI_MIN = {'multi_histories': 700, 'multi_victim_teardowns': 400, 'multi_victims_le': 120, 'multi_victims_bredr': 100,
+             'multi_victims_sco': 50, 'multi_victims_cis': 70, 'multi_table_checks': 60000, 'multi_link_object_checks': 30000,
+             'multi_pings': 10000, 'multi_disconnect_waiters': 2400, 'multi_leftover_checks': 4000, 'multi_remakes': 240,
+             'handle_distinctness_checks': 20000, 'handles_reused': 1500, 'handles_reused_by_another_link_kind': 500,
+             'connection_reports_checked': 4000,
+             'order_histories': 45, 'order_ext_adv_connections': 75, 'order_ext_adv_terminated-first': 18,
+             'order_ext_adv_terminated-after-data': 18, 'order_adv_event_swaps': 36,
+             'order_connections_on_a_handle_used_before': 50, 'order_refused_disconnections': 8, 'order_failed_connections': 6,
+             'order_failed_security_procedures': 5, 'order_waiters_judged': 25}
 MIN_EVENTS = {
-    'quick': {'cut_runs': 1800, 'cuts_before_completion': 1200, 'table_checks': 1800, 'leftover_checks': 1800,
-              'link_table_checks': 100, 'links_tracked': 150, 'link_disconnection_event_checks': 120, 'side_waiters': 100,
-              'real_transport_losses_observed': 6},
-    'thorough': {'cut_runs': 3000, 'cuts_before_completion': 1200, 'table_checks': 3000, 'leftover_checks': 3000,
-                 'link_table_checks': 100, 'links_tracked': 150, 'link_disconnection_event_checks': 120,
-                 'side_waiters': 100, 'real_transport_losses_observed': 12},
+    'quick': dict({'cut_runs': 1800, 'cuts_before_completion': 1200, 'table_checks': 1800, 'leftover_checks': 1800,
+                   'link_table_checks': 100, 'links_tracked': 150, 'link_disconnection_event_checks': 120, 'side_waiters': 100,
+                   'real_transport_losses_observed': 6}, **MULTI_MIN),
+    'thorough': dict({'cut_runs': 3000, 'cuts_before_completion': 1200, 'table_checks': 3000, 'leftover_checks': 3000,
+                      'link_table_checks': 100, 'links_tracked': 150, 'link_disconnection_event_checks': 120,
+                      'side_waiters': 100, 'real_transport_losses_observed': 12}, **MULTI_MIN),
 }
 CASE_TIMEOUT = 1800
 EXHAUSTIVE_NOTE = 'thorough tier: every HCI message index of every listed procedure x 4 cut kinds'
@@ -62,6 +120,23 @@ ISO_PROCS = ['cis-establish', 'cis-idle', 'cis-iso-stream', 'cis-disconnect', 's
 PROCS += ISO_PROCS
 # the same procedure with the link made the other way round (the GATT server is the link central)
 PROCS += ['gatt-subscribe-rev', 'gatt-indicate-rev', 'coc-drain-rev']
+# waiters an independent reader pointed at: an indication awaiting its confirmation on an enhanced (EATT) bearer, through
+# indicate_subscriber (one bearer after the other) and several indications queued behind one another; an LE credit-based
+# channel whose disconnect() was given up by its caller (cancelled) before the link goes; a pending AVDTP command
+PROCS += ['gatt-eatt-read', 'gatt-eatt-indicate', 'gatt-eatt-indicate-single', 'gatt-indicate-queued',
+          'coc-disconnect-cancelled', 'avdtp-discover']
+NEW_PROCS = ('gatt-eatt-read', 'gatt-eatt-indicate', 'gatt-eatt-indicate-single', 'gatt-indicate-queued',
+             'coc-disconnect-cancelled', 'avdtp-discover')
+
+
+def kp(proc):
+    """Key suffix: the table / leftover keys of the procedures added later name the procedure (a caller that gave up, an
+    enhanced bearer ... are mechanisms of their own); the keys of the older procedures stay as they were."""
+    return f'/{proc}' if proc in NEW_PROCS else ''
+
+
+# procedures whose awaited call runs on device 1 (the GATT server indicating)
+SERVER_WAITS = ('gatt-indicate', 'gatt-eatt-indicate', 'gatt-eatt-indicate-single', 'gatt-indicate-queued')
 CUTS = ['disc-initiator', 'disc-responder', 'lost-initiator', 'lost-responder']
 
 
@@ -85,7 +160,41 @@ def plan(tier, seed):
         for how in ('disc-initiator', 'disc-responder', 'lost'):
             for k in range(2):
                 cases.append({'kind': 'stale', 'transport': tr, 'how': how, 'seed': seed * 1000003 + 900 + len(cases)})
-    return cases
+    # several links at once on one device: every topology x every link as the victim x every ending; seeded walks
+    for rep in range(2 if tier == 'quick' else 6):
+        for i, topo in enumerate(MULTI_TOPOLOGIES):
+            cases.append({'kind': 'multi', 'topology': topo, 'seed': seed * 1000003 + 5000 + 100 * rep + i, 'pick': None})
+    for i in range(96 if tier == 'quick' else 400):
+        cases.append({'kind': 'multi-random', 'seed': seed * 1000003 + 6000 + i, 'count': 4 if tier == 'quick' else 8})
+    # event orders / failure reports of a controller that is not bumble's
+    for i, d in enumerate(order_plan(tier, seed)):
+        cases.append(dict(d, kind='order', seed=seed * 1000003 + 7000 + i))
+    return balance(cases)
+
+
+# measured CPU seconds of one quick-tier case
+CASE_WEIGHT = {'coc-drain': 8.2, 'coc-drain-rev': 8.2, 'gatt-long-read': 3.4, 'gatt-discover': 2.1, 'gatt-read': 1.5,
+               'gatt-write': 1.5, 'pair-sc': 1.1, 'pair-legacy': 1.0, 'rfcomm-open': 0.9, 'avdtp-discover': 0.7,
+               'sdp-query': 0.6, 'gatt-indicate-queued': 0.5, 'gatt-eatt-indicate-single': 0.4, 'classic-connect': 0.4}
+KIND_WEIGHT = {'multi': 0.4, 'multi-random': 0.2, 'order': 0.04, 'stale': 0.02, 'real-transport': 0.05, 'cut': 0.2}
+
+
+def balance(cases):
+    """The runner gives case k to process k mod 16. The descriptors (and the seeds in them) stay what they are; only their
+    order changes, so that the few long cases (thousands of cut points) do not share a process: heaviest first, each to
+    the process with the least work so far that still has room (all processes get the same number of cases)."""
+    jobs = 16
+
+    def weight(c):
+        return CASE_WEIGHT.get(c.get('proc'), KIND_WEIGHT.get(c.get('kind'), 0.3))
+    room = [len(cases) // jobs + (1 if k < len(cases) % jobs else 0) for k in range(jobs)]
+    bins = [[] for _ in range(jobs)]
+    load = [0.0] * jobs
+    for i in sorted(range(len(cases)), key=lambda i: (-weight(cases[i]), i)):
+        k = min((k for k in range(jobs) if len(bins[k]) < room[k]), key=lambda k: (load[k], k))
+        bins[k].append(cases[i])
+        load[k] += weight(cases[i])
+    return [bins[k][row] for row in range(max(room, default=0)) for k in range(jobs) if row < len(bins[k])]
 
 
 # -----------------------------------------------------------------------------
@@ -190,12 +299,17 @@ async def build(case, proc):
     from bumble.pairing import PairingConfig, PairingDelegate
     from vlib import rig as vrig
     vrig.seed_entropy(case['seed'])
-    classic = proc in ('classic-connect', 'classic-disconnect', 'rfcomm-open', 'sdp-query') or proc.startswith('sco')
+    classic = proc in ('classic-connect', 'classic-disconnect', 'rfcomm-open', 'sdp-query', 'avdtp-discover') or \
+        proc.startswith('sco')
     # VERIF_SEED selects the delay schedule (0: none, 1, 2: up to that many loop turns per
     # hop) and, in the quick tier, which message indices are sampled
     rg = vrig.Rig(2, seed=case['seed'], max_delay=(case['seed'] // 1000003) % 3, classic=classic)
     d0, d1 = rg.devices
     ctx = {'rg': rg}
+    # the handles each controller announces, kept from the raw events (one handle names one link, whatever its kind)
+    from vlib.ref_hci_links import HandleLedger
+    ledgers = ctx['ledgers'] = [HandleLedger(), HandleLedger()]
+    rg.on_hci_logged.append(lambda rec: ledgers[rec[1]].feed(rec[3]) if rec[2] == 'c2h' else None)
     if proc.startswith('gatt'):
         ch = gatt.Characteristic(
             'D0000001-0000-1000-8000-00805F9B34FB',
@@ -206,6 +320,8 @@ async def build(case, proc):
         svc = gatt.Service('D0000000-0000-1000-8000-00805F9B34FB', [ch])
         d1.add_service(svc)
         ctx['server_char'] = ch
+        if 'eatt' in proc:
+            d1.gatt_server.register_eatt()
     if proc in ('pair-legacy', 'pair-sc', 'encrypt'):
         for d in (d0, d1):
             d.pairing_config_factory = lambda conn, _sc=(proc != 'pair-legacy'): PairingConfig(
@@ -231,10 +347,21 @@ async def build(case, proc):
             chars = peer.get_characteristics_by_uuid(ctx['server_char'].uuid)
             ctx['char'] = chars[0]
             await vloop.vwait(ctx['char'].discover_descriptors())
-        if proc == 'gatt-indicate':
+        if proc in ('gatt-indicate', 'gatt-indicate-queued', 'gatt-eatt-indicate-single'):
             await vloop.vwait(ctx['char'].subscribe(lambda v: None, prefer_notify=False))
+        if 'eatt' in proc:
+            # one enhanced bearer next to the unenhanced one, with its own client, proxies and subscription
+            from bumble import gatt_client
+            eatt = ctx['eatt_client'] = await vloop.vwait(gatt_client.Client.connect_eatt(c0))
+            await vloop.vwait(eatt.discover_services())
+            for s in eatt.services:
+                await vloop.vwait(s.discover_characteristics())
+            ctx['eatt_char'] = eatt.get_characteristics_by_uuid(ctx['server_char'].uuid)[0]
+            await vloop.vwait(ctx['eatt_char'].discover_descriptors())
+            if proc != 'gatt-eatt-read':
+                await vloop.vwait(ctx['eatt_char'].subscribe(lambda v: None, prefer_notify=False))
         await rg.quiesce()
-    if proc in ('coc-connect', 'coc-disconnect', 'coc-drain'):
+    if proc in ('coc-connect', 'coc-disconnect', 'coc-drain', 'coc-disconnect-cancelled'):
         def accept(ch):
             ch.sink = lambda data: None   # a consuming receiver (without a sink no credits are returned)
         d1.create_l2cap_server(spec=l2cap.LeCreditBasedChannelSpec(psm=0x80, max_credits=4), handler=accept)
@@ -255,6 +382,19 @@ async def build(case, proc):
             sdp.ServiceAttribute(sdp.SDP_SERVICE_RECORD_HANDLE_ATTRIBUTE_ID, sdp.DataElement.unsigned_integer_32(0x10001)),
             sdp.ServiceAttribute(sdp.SDP_SERVICE_CLASS_ID_LIST_ATTRIBUTE_ID,
                                  sdp.DataElement.sequence([sdp.DataElement.uuid(core.UUID('1101'))]))]}
+    if proc == 'avdtp-discover':
+        from bumble import avdtp, a2dp
+        caps = avdtp.MediaCodecCapabilities(
+            media_type=avdtp.MediaType.AUDIO, media_codec_type=a2dp.CodecType.SBC,
+            media_codec_information=a2dp.SbcMediaCodecInformation(
+                sampling_frequency=a2dp.SbcMediaCodecInformation.SamplingFrequency.SF_48000,
+                channel_mode=a2dp.SbcMediaCodecInformation.ChannelMode.JOINT_STEREO,
+                block_length=a2dp.SbcMediaCodecInformation.BlockLength.BL_16,
+                subbands=a2dp.SbcMediaCodecInformation.Subbands.S_8,
+                allocation_method=a2dp.SbcMediaCodecInformation.AllocationMethod.LOUDNESS,
+                minimum_bitpool_value=2, maximum_bitpool_value=53))
+        listener = ctx['avdtp_listener'] = avdtp.Listener.for_device(d1)
+        listener.on('connection', lambda server: server.add_sink(caps))
     if proc == 'encrypt':
         await vloop.vwait(c0.pair())
         await rg.quiesce()
@@ -283,6 +423,34 @@ def make_op(ctx, proc):
             return await ctx['char'].subscribe(lambda v: None)
         if proc == 'gatt-indicate':
             return await d1.indicate_subscribers(ctx['server_char'], b'hello')
+        if proc == 'gatt-eatt-read':
+            return await ctx['eatt_char'].read_value()
+        if proc == 'gatt-eatt-indicate':
+            return await d1.gatt_server.indicate_subscribers(ctx['server_char'], b'hello')
+        if proc == 'gatt-eatt-indicate-single':
+            # the enhanced bearers of the connection first, then the unenhanced one, each awaiting its confirmation
+            return await d1.gatt_server.indicate_subscriber(c1, ctx['server_char'], b'hello')
+        if proc == 'gatt-indicate-queued':
+            res = await asyncio.gather(*[d1.gatt_server.indicate_subscriber(c1, ctx['server_char'], bytes([i]) * 4)
+                                         for i in range(3)], return_exceptions=True)
+            for x in res:
+                if isinstance(x, BaseException) and not isinstance(x, Exception):
+                    raise x
+            return res
+        if proc == 'coc-disconnect-cancelled':
+            # the caller of disconnect() gives up (as asyncio.wait_for does on a timeout) once the request is out
+            t = asyncio.ensure_future(ctx['chan'].disconnect())
+            await asyncio.sleep(0)
+            t.cancel()
+            try:
+                await t
+            except asyncio.CancelledError:
+                pass
+            return None
+        if proc == 'avdtp-discover':
+            from bumble import avdtp
+            protocol = await avdtp.Protocol.connect(c0)
+            return await protocol.discover_remote_endpoints()
         if proc in ('pair-legacy', 'pair-sc'):
             return await c0.pair()
         if proc == 'encrypt':
@@ -355,7 +523,8 @@ def dead_handle_leftovers(rg, dev, dead_handles, dead_conns):
                 # finishing coroutine carries no state
                 if v is None or v == {} or (hasattr(v, 'locked') and not v.locked()):
                     continue
-                out.append((f'gatt_server.{name}', f'entry for dead connection {getattr(bearer, "handle", bearer)}'))
+                out.append((f'gatt_server.{name}' + ('' if bearer in dead_conns else '/enhanced-bearer'),
+                            f'entry for dead connection {getattr(bearer, "handle", bearer)}'))
     for h in list(getattr(d.smp_manager, 'sessions', {})):
         if h in dead_handles:
             out.append(('smp.sessions', f'pairing session for dead handle {h:#x}'))
@@ -371,6 +540,9 @@ def dead_handle_leftovers(rg, dev, dead_handles, dead_conns):
         h = key[0] if isinstance(key, tuple) else None
         if h is None or h in dead_handles:
             out.append(('l2cap.le_coc_requests', f'pending request {key}'))
+    for h in getattr(d, 'connecting_extended_advertising_sets', {}):
+        if h in dead_handles:
+            out.append(('device.connecting_extended_advertising_sets', f'advertising set parked for dead handle {h:#x}'))
     for qn in ('acl_packet_queue', 'le_acl_packet_queue', 'iso_packet_queue'):
         q = getattr(d.host, qn, None)
         if q is not None:
@@ -527,6 +699,10 @@ async def scenario(case, r, proc, cut, cut_at):
         await vloop.vwait(asyncio.shield(task))
     except vloop.Hang:
         outcome = 'hang'
+        if task.done() and not task.cancelled() and task.exception() is not None:
+            # the procedure itself ended with the built-in TimeoutError (a protocol timeout of the stack, which
+            # asyncio.wait_for inside vwait cannot tell from its own): it ended, with an error
+            outcome = f'raised:{type(task.exception()).__name__}'
     except asyncio.CancelledError:
         outcome = 'cancelled'
     except BaseException as e:
@@ -552,7 +728,7 @@ async def scenario(case, r, proc, cut, cut_at):
         r.ev('cuts_before_completion')
     key = f'{proc}/{cut}'
     r.ev('oracle_evals')
-    waiter_dev = 1 if proc.removesuffix('-rev') == 'gatt-indicate' else 0
+    waiter_dev = 1 if proc.removesuffix('-rev') in SERVER_WAITS else 0
     if outcome.startswith('hang'):
         if not task.done():
             task.cancel()
@@ -575,17 +751,17 @@ async def scenario(case, r, proc, cut, cut_at):
         r.ev('oracle_evals')
         if cut.startswith('lost'):
             if hh or dh:
-                r.bad(f'tables/connections-after-transport-loss/{"host" if hh else "device"}',
+                r.bad(f'tables/connections-after-transport-loss/{"host" if hh else "device"}' + kp(proc),
                       f'dev{dev}: host.connections={sorted(hh)} device.connections={sorted(dh)} after transport loss '
                       f'({proc}, cut at {cut_at})')
         else:
             ch = {c.handle for c in list(rg.controllers[dev].le_connections.values()) +
                   list(rg.controllers[dev].classic_connections.values())}
             if not (hh == dh == ch):
-                r.bad(f'tables/disagree/{cut}', f'dev{dev}: host={sorted(hh)} device={sorted(dh)} controller={sorted(ch)} '
+                r.bad(f'tables/disagree/{cut}' + kp(proc), f'dev{dev}: host={sorted(hh)} device={sorted(dh)} controller={sorted(ch)} '
                                                 f'({proc}, cut at {cut_at})')
             if hh or dh or ch:
-                r.bad(f'tables/connection-survived/{cut}', f'dev{dev} still has connections {sorted(hh | dh | ch)}')
+                r.bad(f'tables/connection-survived/{cut}' + kp(proc), f'dev{dev} still has connections {sorted(hh | dh | ch)}')
     # ---- links riding on the connection (CIS, SCO) ----------------------------------
     iso_handles = {0: set(), 1: set()}
     if 'watch' in ctx:
@@ -597,8 +773,15 @@ async def scenario(case, r, proc, cut, cut_at):
         left = dead_handle_leftovers(rg, dev, {conn.handle} | iso_handles[dev], {conn})
         r.ev('oracle_evals')
         for sub, what in left:
-            r.bad(f'leftover/{sub}/{"transport-loss" if cut.startswith("lost") else "disconnect"}',
+            r.bad(f'leftover/{sub}/{"transport-loss" if cut.startswith("lost") else "disconnect"}' + kp(proc),
                   f'dev{dev}: {what} ({proc}, {cut} at message {cut_at})')
+    for dev, led in enumerate(ctx['ledgers']):
+        r.ev('handle_distinctness_checks')
+        r.ev('oracle_evals')
+        for new, handle, old in led.collisions:
+            r.bad(f'handles/collision/{new}-given-handle-of-live-{old}',
+                  f'dev{dev}: the controller announced a {new} link with handle {handle:#x} while that handle still named a {old} '
+                  f'link ({proc}, {cut} at message {cut_at})')
     for where, e in rg.exceptions:
         if where.startswith('on_transport_lost'):
             r.bad(f'waiter/exception-in-on_transport_lost/{proc}', f'{e}')
@@ -690,7 +873,9 @@ async def real_transport(case, r: R):
             got['bytes'] += len(data)
             # answer the first `warm` commands (so that the host has seen traffic), then go silent
             while answered < case['warm'] and got['bytes'] >= 4 * (answered + 1):
-                writer.write(bytes([4, 0x0E, 4, 1, 0x09, 0x10, 0]))    # Command Complete, Read_BD_ADDR, status 0 (short)
+                # Command Complete, Read_BD_ADDR, status 0, BD_ADDR (a whole one: a truncated event is dropped by the host and
+                # each warm-up command then costs its 20 s of wall-clock timeout)
+                writer.write(bytes([4, 0x0E, 10, 1, 0x09, 0x10, 0]) + bytes([0xA0, 0x10, 0x10, 0x10, 0x10, 0x10]))
                 answered += 1
             if got['bytes'] >= 4 * (case['warm'] + 1):
                 ev_cmd.set()
@@ -717,6 +902,10 @@ async def real_transport(case, r: R):
             return inner(exc)
         src.connection_lost = connection_lost
         host = Host(transport.source, transport.sink)
+        if case['warm']:
+            # as after HCI_Reset: a host that has not seen its reset complete drops every event, and each warm-up command
+            # would only burn its 20 s of wall-clock timeout
+            host.ready = True
         for _ in range(case['warm']):
             try:
                 await asyncio.wait_for(host.send_command(hci.HCI_Read_BD_ADDR_Command()), 20)
@@ -780,11 +969,1055 @@ async def real_transport(case, r: R):
             shutil.rmtree(tmp, ignore_errors=True)
 
 
+# =============================================================================
+# Several links at once on one device, handle re-use across all link kinds (kind 'multi')
+# =============================================================================
+PING_CID = 0x0070
+ACL_KINDS = ('le', 'bredr')
+
+
+class Lk:
+    """The harness's own record of one link it asked for. What SHOULD exist is decided from these records (which links
+    were made, which were torn down, on which ACL a CIS / SCO link rides) and from the HCI events in the ledger, never
+    from bumble's tables."""
+
+    def __init__(self, kind, a, b, parent=None):
+        self.kind, self.a, self.b, self.parent = kind, a, b, parent
+        self.obj = {}                 # device index -> Connection / ScoLink / CisLink
+        self.up = {a: True, b: True}  # device index -> the link exists as far as that device's controller knows
+        self.disc = {a: 0, b: 0}      # device index -> 'disconnection' events seen on the object
+        self.children = []
+        if parent is not None:
+            parent.children.append(self)
+
+    def ends(self):
+        return (self.a, self.b)
+
+    def peer(self, dev):
+        return self.b if dev == self.a else self.a
+
+    def __repr__(self):
+        return f'{self.kind}({self.a}->{self.b})'
+
+
+class OpFailed(Exception):
+    pass
+
+
+class World:
+    """n devices on one link; a history of link set-ups and tear-downs with an independent model next to it."""
+
+    def __init__(self, r, seed, n=3, ext_adv=(), max_delay=0, prefix='multi'):
+        self.r, self.seed, self.n, self.ext_adv, self.max_delay, self.prefix = r, seed, n, tuple(ext_adv), max_delay, prefix
+        self.links = []
+        self.lost = set()
+        self.side = []
+        self.reported_collisions = [0] * n
+        self.ping_no = 0
+        self.cig_no = [0] * n
+        self.nbad = 0
+
+    async def start(self):
+        from bumble import hci
+        from vlib import rig as vrig
+        from vlib.ref_hci_links import HandleLedger
+        vrig.seed_entropy(self.seed)
+        self.rg = rg = vrig.Rig(self.n, seed=self.seed, max_delay=self.max_delay, classic=True)
+        for i in self.ext_adv:
+            rg.controllers[i].le_features = rg.controllers[i].le_features | hci.LeFeatureMask.LE_EXTENDED_ADVERTISING
+        self.ledgers = [HandleLedger() for _ in range(self.n)]
+        rg.on_hci_logged.append(lambda rec: self.ledgers[rec[1]].feed(rec[3]) if rec[2] == 'c2h' else None)
+        self.conn_events = [[] for _ in range(self.n)]
+        self.received = [[] for _ in range(self.n)]
+        self.sco_seen = [[] for _ in range(self.n)]
+        self.cis_seen = [[] for _ in range(self.n)]
+        for i, d in enumerate(rg.devices):
+            # (the addresses as they are when the event is emitted: the object may be updated afterwards)
+            d.on('connection', lambda c, _i=i: self.conn_events[_i].append((c, c.self_address, c.peer_address)))
+            d.l2cap_channel_manager.register_fixed_channel(
+                PING_CID, lambda h, pdu, _i=i: self.received[_i].append((h, bytes(pdu))))
+            d.on('sco_connection', lambda link, _i=i: self.sco_seen[_i].append(link))
+
+            def on_sco_request(connection, link_type, _d=d):
+                self.side.append(asyncio.ensure_future(connection.cancel_on_disconnection(_d.send_command(
+                    hci.HCI_Enhanced_Accept_Synchronous_Connection_Request_Command(bd_addr=connection.peer_address,
+                                                                                   **sco_parameters())))))
+            d.on('sco_request', on_sco_request)
+
+            def on_cis_request(link, _d=d, _i=i):
+                self.cis_seen[_i].append(link)
+                self.side.append(asyncio.ensure_future(link.acl_connection.cancel_on_disconnection(_d.accept_cis_request(link))))
+            d.on('cis_request', on_cis_request)
+        await rg.power_on()
+        return self
+
+    # -- what the harness expects -------------------------------------------------------------------------------------
+    def bad(self, key, detail):
+        if any(key.startswith(self.k(x)) for x in ('tables', 'link-count', 'handle-collision', 'object-replaced')):
+            self.nbad += 1
+        self.r.bad(key, detail)
+
+    def k(self, *parts):
+        return '/'.join((self.prefix,) + tuple(str(p) for p in parts))
+
+    def watch(self, lk, dev, obj):
+        lk.obj[dev] = obj
+        obj.on('disconnection', lambda *a, _lk=lk, _dev=dev: _lk.disc.__setitem__(_dev, _lk.disc[_dev] + 1))
+
+    def expect_addresses(self, lk):
+        """Who is connected to whom is known from what the harness asked for: the central of an LE link connects from its
+        random address to the address the peripheral advertises with (random, unless lk.adv_public); a BR/EDR link joins
+        the two public addresses."""
+        from bumble import hci
+        rg = self.rg
+        rnd = lambda i: (hci.Address(rg.random_addresses[i], hci.Address.RANDOM_DEVICE_ADDRESS))   # noqa: E731
+        pub = lambda i: (hci.Address(rg.addresses[i], hci.Address.PUBLIC_DEVICE_ADDRESS))          # noqa: E731
+        if lk.kind == 'le':
+            padv = getattr(lk, 'adv_address', None) or rnd(lk.b)
+            return {lk.a: (rnd(lk.a), padv, 'CENTRAL'), lk.b: (padv, rnd(lk.a), 'PERIPHERAL')}
+        return {lk.a: (pub(lk.a), pub(lk.b), 'CENTRAL'), lk.b: (pub(lk.b), pub(lk.a), 'PERIPHERAL')}
+
+    def check_reported(self, lk, before, tag):
+        """The new connection is reported by exactly one 'connection' event per device, carrying the right addresses."""
+        r = self.r
+        want = self.expect_addresses(lk)
+        for dev in lk.ends():
+            new = self.conn_events[dev][before[dev]:]
+            r.ev('connection_reports_checked')
+            r.ev('oracle_evals')
+            if len(new) != 1:
+                self.bad(self.k('connection-reported', 'never' if not new else 'repeated', lk.kind, tag),
+                         f'dev{dev}: the new {lk.kind} connection was reported by {len(new)} connection events '
+                         f'{[(c.handle, str(sa), str(pa)) for c, sa, pa in new]}')
+            if not new:
+                continue
+            c, self_address, peer_address = new[0]
+            own, peer, role = want[dev]
+            r.ev('oracle_evals')
+            if (peer_address != peer or peer_address.address_type != peer.address_type
+                    or self_address != own or self_address.address_type != own.address_type):
+                which = 'own' if (self_address != own or self_address.address_type != own.address_type) else 'peer'
+                self.bad(self.k('connection-reported', f'wrong-{which}-address', lk.kind, tag),
+                         f'dev{dev}: connection event with self_address={self_address} peer_address={peer_address}, the '
+                         f'link joins own={own} and peer={peer}')
+            if c.role.name != role and lk.kind == 'le':
+                self.bad(self.k('connection-reported', 'wrong-role', lk.kind, tag), f'dev{dev}: role {c.role.name}, expected {role}')
+
+    # -- operations ---------------------------------------------------------------------------------------------------
+    async def call(self, what, aw):
+        """An API call of the history itself: it must end (Hang = violation), an exception aborts the history."""
+        try:
+            return await vloop.vwait(aw)
+        except vloop.Hang:
+            self.bad(self.k('waiter', 'hang', what), f'{what} still pending after {vloop.T_V} virtual s '
+                                                       f'(links {self.links})')
+            raise OpFailed(what)
+        except Exception as e:
+            self.bad(self.k('op-raised', what), f'{what}: {type(e).__name__}: {e} (links {self.links})')
+            raise OpFailed(what)
+
+    async def connect(self, kind, a, b, tag=None):
+        lk = Lk(kind, a, b)
+        before = [len(x) for x in self.conn_events]
+        if kind == 'le':
+            ca, cb = await self.call('connect-le', self.rg.connect_le(a, b))
+        else:
+            ca, cb = await self.call('connect-bredr', self.rg.connect_classic(a, b))
+        self.watch(lk, a, ca)
+        self.watch(lk, b, cb)
+        self.links.append(lk)
+        self.r.ev('multi_links_made')
+        self.r.ev(f'multi_links_made_{kind}')
+        await self.rg.quiesce()
+        self.check_reported(lk, before, tag or f'connect-{kind}')
+        return lk
+
+    async def add_sco(self, acl):
+        from bumble import hci
+        a, b = acl.a, acl.b
+        n0 = [len(x) for x in self.sco_seen]
+        await self.call('sco-setup', self.rg.devices[a].send_command(hci.HCI_Enhanced_Setup_Synchronous_Connection_Command(
+            connection_handle=acl.obj[a].handle, **sco_parameters())))
+        await self.rg.quiesce()
+        lk = Lk('sco', a, b, parent=acl)
+        for dev in (a, b):
+            new = self.sco_seen[dev][n0[dev]:]
+            if len(new) != 1:
+                self.bad(self.k('sco-reported', 'never' if not new else 'repeated'),
+                           f'dev{dev}: {len(new)} sco_connection events for one eSCO set-up')
+                raise OpFailed('sco-setup')
+            self.watch(lk, dev, new[0])
+        self.links.append(lk)
+        self.r.ev('multi_links_made')
+        self.r.ev('multi_links_made_sco')
+        return lk
+
+    async def add_cis(self, acl):
+        from bumble.device import CigParameters
+        a, b = acl.a, acl.b
+        d = self.rg.devices[a]
+        self.cig_no[a] += 1
+        n0 = len(self.cis_seen[b])
+        cig = CigParameters(cig_id=self.cig_no[a], cis_parameters=[CigParameters.CisParameters(cis_id=self.cig_no[a])],
+                            sdu_interval_c_to_p=10000, sdu_interval_p_to_c=10000)
+        handles = await self.call('cig-setup', d.setup_cig(cig))
+        got = await self.call('cis-create', d.create_cis([(h, acl.obj[a]) for h in handles]))
+        await self.rg.quiesce()
+        lk = Lk('cis', a, b, parent=acl)
+        new = self.cis_seen[b][n0:]
+        if len(got) != 1 or len(new) != 1:
+            self.bad(self.k('cis-reported', 'never' if not new else 'repeated'),
+                       f'{len(got)} links from create_cis, {len(new)} cis_request events on the peripheral')
+            raise OpFailed('cis-create')
+        self.watch(lk, a, got[0])
+        self.watch(lk, b, new[0])
+        self.links.append(lk)
+        self.r.ev('multi_links_made')
+        self.r.ev('multi_links_made_cis')
+        return lk
+
+    def mark_down(self, lk, devs=None):
+        for dev in (devs if devs is not None else lk.ends()):
+            lk.up[dev] = False
+        for ch in lk.children:
+            self.mark_down(ch, devs)
+
+    async def disconnect(self, lk, by):
+        """by: a device index, or 'both' (the two ends ask at the same moment)."""
+        sides = lk.ends() if by == 'both' else (by,)
+        going = [x for x in [lk] + lk.children if any(x.up.values())]     # (a child torn down earlier: its handle may be in use again)
+        handles = {dev: {x.obj[dev].handle for x in going if dev in x.obj} for dev in lk.ends()}
+        conns = {dev: [x.obj[dev] for x in going if dev in x.obj and x.kind in ACL_KINDS] for dev in lk.ends()}
+        tasks = [asyncio.ensure_future(lk.obj[dev].disconnect()) for dev in sides]
+        for dev, t in zip(sides, tasks):
+            self.r.ev('multi_disconnect_waiters')
+            self.r.ev('oracle_evals')
+            try:
+                await vloop.vwait(asyncio.shield(t))
+            except vloop.Hang:
+                if not t.done():
+                    t.cancel()
+                    self.bad(self.k('waiter', 'hang', f'{lk.kind}-disconnect', 'both' if by == 'both' else 'one-side'),
+                               f'dev{dev}: disconnect() of {lk} still pending after {vloop.T_V} virtual s; links {self.links}')
+                    self.mark_down(lk)
+                    raise OpFailed('disconnect')
+            except Exception as e:
+                if by != 'both':
+                    self.bad(self.k('op-raised', f'{lk.kind}-disconnect'), f'dev{dev}: disconnect() of {lk}: '
+                                                                             f'{type(e).__name__}: {e}')
+                    self.mark_down(lk)
+                    raise OpFailed('disconnect')
+        self.mark_down(lk)
+        return handles, conns
+
+    def lose_transport(self, dev):
+        self.lost.add(dev)
+        self.rg.cut_transport(dev)
+        try:
+            self.rg.hosts[dev].on_transport_lost()
+        except Exception as e:
+            self.bad(self.k('exception-in-on_transport_lost'), f'dev{dev}: {type(e).__name__}: {e}')
+        for lk in self.links:
+            if dev in lk.ends():
+                lk.up[dev] = False     # (the far end's controller still holds the link: nothing told it otherwise)
+
+    # -- the oracle ---------------------------------------------------------------------------------------------------
+    def views(self, dev):
+        from bumble.core import PhysicalTransport
+        host, device, ctl = self.rg.hosts[dev], self.rg.devices[dev], self.rg.controllers[dev]
+        le, br = PhysicalTransport.LE, PhysicalTransport.BR_EDR
+        hostv = {'le': {h for h, c in host.connections.items() if c.transport == le},
+                 'bredr': {h for h, c in host.connections.items() if c.transport == br},
+                 'sco': set(host.sco_links), 'cis': set(host.cis_links)}
+        devv = {'le': {h for h, c in device.connections.items() if c.transport == le},
+                'bredr': {h for h, c in device.connections.items() if c.transport == br},
+                'sco': set(device.sco_links),
+                'cis': {h for h, l in device.cis_links.items() if l.state.name == 'ESTABLISHED'}}
+        ctlv = {'le': {c.handle for c in ctl.le_connections.values()},
+                'bredr': {c.handle for c in ctl.classic_connections.values()},
+                'sco': {l.handle for l in ctl.sco_links.values() if l.handle},
+                'cis': {l.handle for l in list(ctl.central_cis_links.values()) + list(ctl.peripheral_cis_links.values())
+                        if l.established}}
+        return hostv, devv, ctlv
+
+    async def settle(self, tag, dead=None):
+        """Quiescence, then every judgement that does not need traffic. `dead`: (handles, connection objects) per device
+        of the links that the last operation tore down (leftover inspection)."""
+        r, rg = self.r, self.rg
+        try:
+            await rg.quiesce()
+        except vloop.Hang:
+            self.bad(self.k('no-quiescence', tag), 'messages keep flowing')
+            raise OpFailed('quiesce')
+        r.ev('multi_settles')
+        found = self.nbad
+        for dev in range(self.n):
+            here = [lk for lk in self.links if dev in lk.ends()]
+            if dev in self.lost:
+                host, device = rg.hosts[dev], rg.devices[dev]
+                left = {'host.connections': sorted(host.connections), 'device.connections': sorted(device.connections)}
+                for kind in ('cis', 'sco', 'bis'):
+                    left[f'host.{kind}_links'] = sorted(getattr(host, f'{kind}_links'))
+                    left[f'device.{kind}_links'] = sorted(getattr(device, f'{kind}_links'))
+                r.ev('oracle_evals')
+                r.ev('multi_table_checks')
+                for name, v in left.items():
+                    if v:
+                        self.bad(self.k('tables', 'after-transport-loss', name), f'dev{dev}: {name}={v} after its transport was lost; '
+                                                                              f'links {self.links}')
+            else:
+                led = self.ledgers[dev]
+                ledv = led.live_by_kind()
+                hostv, devv, ctlv = self.views(dev)
+                for kind in ('le', 'bredr', 'sco', 'cis'):
+                    r.ev('oracle_evals', 2)
+                    r.ev('multi_table_checks')
+                    model = sum(1 for lk in here if lk.kind == kind and lk.up[dev])
+                    if not (ledv[kind] == hostv[kind] == devv[kind] == ctlv[kind]):
+                        self.bad(self.k('tables-disagree', kind, tag),
+                              f'dev{dev}: {kind} handles announced over HCI {sorted(ledv[kind])}, host {sorted(hostv[kind])}, '
+                              f'device {sorted(devv[kind])}, controller {sorted(ctlv[kind])}; links {self.links}')
+                    elif len(ledv[kind]) != model:
+                        self.bad(self.k('link-count', kind, 'missing' if len(ledv[kind]) < model else 'extra', tag),
+                              f'dev{dev}: {model} {kind} links should be up (links {[(l, l.up) for l in here]}), tables have '
+                              f'{sorted(ledv[kind])}')
+                # one handle names one link, whatever its kind
+                r.ev('oracle_evals', 2)
+                r.ev('handle_distinctness_checks')
+                for new, handle, old in led.collisions[self.reported_collisions[dev]:]:
+                    self.bad(self.k('handle-collision', f'{new}-given-handle-of-live-{old}'),
+                          f'dev{dev}: the controller announced a {new} link with handle {handle:#x} while that handle still named a '
+                          f'{old} link (history {led.history[-8:]})')
+                self.reported_collisions[dev] = len(led.collisions)
+                table = {'le': rg.devices[dev].connections, 'bredr': rg.devices[dev].connections,
+                         'sco': rg.devices[dev].sco_links, 'cis': rg.devices[dev].cis_links}
+                live_handles = [lk.obj[dev].handle for lk in here if lk.up[dev] and dev in lk.obj]
+                if len(set(live_handles)) != len(live_handles):
+                    self.bad(self.k('handle-collision', 'two-live-link-objects-one-handle'),
+                          f'dev{dev}: live link objects {[(l, l.obj[dev].handle) for l in here if l.up[dev]]}')
+                for lk in here:
+                    if dev not in lk.obj:
+                        continue
+                    r.ev('oracle_evals', 2)
+                    r.ev('multi_link_object_checks')
+                    obj = lk.obj[dev]
+                    if lk.up[dev]:
+                        if table[lk.kind].get(obj.handle) is not obj:
+                            self.bad(self.k('object-replaced', lk.kind, tag),
+                                  f'dev{dev}: {lk} is up, device table entry for its handle {obj.handle:#x} is '
+                                  f'{table[lk.kind].get(obj.handle)!r}, not the object the link was reported with')
+                        if lk.disc[dev]:
+                            self.bad(self.k('disconnection-event', 'on-live-link', lk.kind, tag),
+                                  f'dev{dev}: {lk} (handle {obj.handle:#x}) is up and got {lk.disc[dev]} disconnection events; '
+                                  f'links {[(l, l.up) for l in self.links]}')
+                    elif lk.disc[dev] != 1:
+                        self.bad(self.k('disconnection-event', 'none' if not lk.disc[dev] else 'repeated', lk.kind, tag),
+                              f'dev{dev}: {lk} (handle {obj.handle:#x}) is gone and got {lk.disc[dev]} disconnection events; '
+                              f'links {[(l, l.up) for l in self.links]}')
+            if dead is not None and dev in dead[0]:
+                r.ev('multi_leftover_checks')
+                r.ev('oracle_evals')
+                for sub, what in dead_handle_leftovers(rg, dev, dead[0][dev], dead[1][dev]):
+                    self.bad(self.k('leftover', sub, tag), f'dev{dev}: {what}; links {self.links}')
+        for t in self.side:
+            if t.done() and not t.cancelled():
+                t.exception()
+        for where, e in rg.exceptions[getattr(self, '_exc_seen', 0):]:
+            r.ev('exceptions_in_stack_multi')
+            r.add_extra_list('exceptions_multi', f'{tag}: {where}: {e}'[:160])
+        self._exc_seen = len(rg.exceptions)
+        if self.nbad != found:
+            # what follows wrong tables / handles would only be their consequences: the history ends here
+            raise OpFailed('judged')
+
+    async def ping_all(self, tag):
+        """Data still flows, both ways, on every ACL link whose two ends are with us, and reaches the right device on the
+        handle of that very link."""
+        r, rg = self.r, self.rg
+        for lk in self.links:
+            if lk.kind not in ACL_KINDS or not all(lk.up[d] for d in lk.ends()) or any(d in self.lost for d in lk.ends()):
+                continue
+            for src in lk.ends():
+                dst = lk.peer(src)
+                self.ping_no += 1
+                payload = b'ping' + self.ping_no.to_bytes(4, 'big') + bytes([src, dst])
+                marks = [len(x) for x in self.received]
+                try:
+                    rg.devices[src].send_l2cap_pdu(lk.obj[src].handle, PING_CID, payload)
+                except Exception as e:
+                    self.bad(self.k('data', 'send-raised', lk.kind, tag), f'dev{src}: {type(e).__name__}: {e}')
+                    continue
+                await rg.quiesce()
+                r.ev('multi_pings')
+                r.ev('oracle_evals')
+                got = {d: [x for x in self.received[d][marks[d]:] if x[1] == payload] for d in range(self.n)}
+                if got[dst] != [(lk.obj[dst].handle, payload)]:
+                    self.bad(self.k('data', 'lost' if not got[dst] else 'wrong-handle-or-repeated', lk.kind, tag),
+                          f'a PDU sent by dev{src} on {lk} (handle {lk.obj[src].handle:#x}) reached dev{dst} as {got[dst]} '
+                          f'(its end of the link has handle {lk.obj[dst].handle:#x}); links {[(l, l.up) for l in self.links]}')
+                stray = {d: v for d, v in got.items() if d != dst and v}
+                if stray:
+                    self.bad(self.k('data', 'misrouted', lk.kind, tag), f'a PDU sent by dev{src} on {lk} also reached {stray}')
+
+    def finish(self):
+        for t in self.side:
+            if not t.done():
+                t.cancel()
+        for led in getattr(self, 'ledgers', []):
+            self.r.ev('handles_opened', led.opens)
+            self.r.ev('handles_closed', led.closes)
+            self.r.ev('handles_reused', len(led.reuses))
+            self.r.ev('handles_reused_by_another_link_kind', sum(1 for new, old in led.reuses if new != old))
+
+
+MULTI_TOPOLOGIES = {
+    # name: steps; ('le'|'bredr', a, b) makes an ACL, ('sco'|'cis', index of the ACL it rides on)
+    'le+le': [('le', 0, 1), ('le', 0, 2)],
+    'le+le-incoming': [('le', 0, 1), ('le', 2, 0)],
+    'bredr+bredr': [('bredr', 0, 1), ('bredr', 0, 2)],
+    'bredr+bredr-incoming': [('bredr', 0, 1), ('bredr', 2, 0)],
+    'bredr+le-same-peer': [('bredr', 0, 1), ('le', 0, 1)],
+    'bredr+sco+le-same-peer': [('bredr', 0, 1), ('sco', 0), ('le', 0, 1)],
+    'bredr+sco+le': [('bredr', 0, 1), ('sco', 0), ('le', 0, 2)],
+    'bredr+sco+le-incoming': [('bredr', 0, 1), ('sco', 0), ('le', 2, 0)],
+    'bredr+sco+bredr': [('bredr', 0, 1), ('sco', 0), ('bredr', 0, 2)],
+    'bredr+sco+bredr-incoming': [('bredr', 1, 0), ('sco', 0), ('bredr', 2, 0)],
+    'le+cis+le': [('le', 0, 1), ('cis', 0), ('le', 0, 2)],
+    'le+cis+le-incoming': [('le', 0, 1), ('cis', 0), ('le', 2, 0)],
+    'le+cis+bredr-same-peer': [('le', 0, 1), ('cis', 0), ('bredr', 0, 1)],
+    'le+cis+bredr': [('le', 0, 1), ('cis', 0), ('bredr', 2, 0)],
+    'bredr+sco+le+cis': [('bredr', 0, 1), ('sco', 0), ('le', 0, 2), ('cis', 2)],
+    'le+cis+bredr+sco': [('le', 0, 1), ('cis', 0), ('bredr', 0, 2), ('sco', 2)],
+    # CIG / CIS identifiers are chosen by each central on its own (here every central numbers its CIGs from 1): two
+    # centrals with the same identifiers on one peripheral; a device that is central of its own CIG and peripheral in another
+    'le+cis+le+cis-two-centrals': [('le', 0, 1), ('cis', 0), ('le', 2, 1), ('cis', 2)],
+    'le+cis+le+cis-both-roles': [('le', 0, 1), ('cis', 0), ('le', 1, 2), ('cis', 2)],
+}
+MULTI_ENDINGS = ['by-0', 'by-peer', 'both', 'lost-0', 'lost-peer']
+
+
+async def multi_step(w, step):
+    if step[0] in ACL_KINDS:
+        return await w.connect(step[0], step[1], step[2])
+    acl = w.links[step[1]]
+    return await (w.add_sco(acl) if step[0] == 'sco' else w.add_cis(acl))
+
+
+async def multi_history(case, r, topo, victim, ending, seed):
+    """Build the topology, tear down ONE link (the victim) in the given way, judge; make the same link again (the
+    controller hands the lowest free handle out again), judge; then tear everything down link by link."""
+    rng = random.Random(seed)
+    w = await World(r, seed, n=3, max_delay=rng.choice([0, 0, 1, 2])).start()
+    steps = MULTI_TOPOLOGIES[topo]
+    try:
+        for st in steps:
+            lk = await multi_step(w, st)
+            await w.settle(f'{lk.kind}-set-up')
+        await w.ping_all('set-up')
+        v = w.links[victim]
+        tag = f'{v.kind}-{"transport-loss" if ending.startswith("lost") else "disconnect"}'
+        other = v.peer(0) if 0 in v.ends() else v.b
+        r.ev('multi_victim_teardowns')
+        r.ev(f'multi_victims_{v.kind}')
+        if ending.startswith('lost'):
+            w.lose_transport(0 if ending == 'lost-0' else other)
+            await w.settle(tag)
+            await w.ping_all(tag)
+        else:
+            by = {'by-0': 0 if 0 in v.ends() else v.a, 'by-peer': other, 'both': 'both'}[ending]
+            dead = await w.disconnect(v, by)
+            await w.settle(tag, dead)
+            await w.ping_all(tag)
+            # the same link again: its handle is free again
+            r.ev('multi_remakes')
+            if v.kind in ACL_KINDS:
+                again = await w.connect(v.kind, v.a, v.b, tag=f're-connect-{v.kind}')
+            else:
+                again = await (w.add_sco(v.parent) if v.kind == 'sco' else w.add_cis(v.parent))
+            if set(again.obj[d].handle for d in again.ends()) & set(v.obj[d].handle for d in v.ends()):
+                r.ev('multi_handle_reused')
+            await w.settle(f're-made-{v.kind}')
+            await w.ping_all(f're-made-{v.kind}')
+        # everything goes, one link at a time, from a side that still has its transport
+        order = [lk for lk in w.links if any(lk.up.values())]
+        rng.shuffle(order)
+        for lk in order:
+            sides = [d for d in lk.ends() if lk.up[d] and d not in w.lost]
+            if not sides:
+                continue
+            dead = await w.disconnect(lk, rng.choice(sides))
+            await w.settle(f'{lk.kind}-disconnect', dead)
+            await w.ping_all(f'{lk.kind}-disconnect')
+        r.sig('multi', topo, victim, ending)
+    except OpFailed:
+        r.ev('multi_histories_cut_short')
+    finally:
+        w.finish()
+    r.ev('multi_histories')
+    r.evals()
+    r.sched.add(w.rg.schedule_signature)
+
+
+async def multi_random(case, r, seed):
+    """A seeded walk over three devices: set up an ACL (LE or BR/EDR, either direction), put a SCO / CIS link on one,
+    tear one link down (either side, or both at once), lose a transport; judged after every step."""
+    rng = random.Random(seed)
+    w = await World(r, seed, n=3, max_delay=rng.choice([0, 1, 2])).start()
+    trail = []
+    try:
+        for _ in range(rng.randint(8, 14)):
+            alive = [d for d in range(3) if d not in w.lost]
+            if len(alive) < 2:
+                break
+            ups = [lk for lk in w.links if any(lk.up[d] and d not in w.lost for d in lk.ends())]
+            choices = ['connect'] * 3 + (['sync'] * 2 + ['disconnect'] * 3 if ups else []) + (['lose'] if rng.random() < 0.15 else [])
+            what = rng.choice(choices)
+            if what == 'connect':
+                kind = rng.choice(ACL_KINDS)
+                a, b = rng.sample(alive, 2)
+                if any(lk.kind == kind and set(lk.ends()) == {a, b} and any(lk.up.values()) for lk in w.links):
+                    continue
+                trail.append((kind, a, b))
+                lk = await w.connect(kind, a, b)
+                await w.settle(f'{kind}-set-up')
+            elif what == 'sync':
+                acls = [lk for lk in ups if lk.kind in ACL_KINDS and all(lk.up.values()) and not (set(lk.ends()) & w.lost)
+                        and not any(ch.up[ch.a] or ch.up[ch.b] for ch in lk.children)]
+                if not acls:
+                    continue
+                acl = rng.choice(acls)
+                trail.append(('sync', acl))
+                lk = await (w.add_sco(acl) if acl.kind == 'bredr' else w.add_cis(acl))
+                await w.settle(f'{lk.kind}-set-up')
+            elif what == 'disconnect':
+                lk = rng.choice(ups)
+                sides = [d for d in lk.ends() if lk.up[d] and d not in w.lost]
+                by = 'both' if len(sides) == 2 and rng.random() < 0.2 else rng.choice(sides)
+                trail.append(('disconnect', lk, by))
+                dead = await w.disconnect(lk, by)
+                await w.settle(f'{lk.kind}-disconnect', dead)
+            else:
+                dev = rng.choice(alive)
+                trail.append(('lose', dev))
+                w.lose_transport(dev)
+                await w.settle('transport-loss')
+            await w.ping_all(what)
+        r.sig('multi-random', seed)
+    except OpFailed:
+        r.ev('multi_histories_cut_short')
+    finally:
+        w.finish()
+    r.ev('multi_histories')
+    r.ev('multi_random_histories')
+    r.evals()
+    r.sample = {'kind': 'multi-random', 'trail': [str(t) for t in trail][:14]}
+    r.sched.add(w.rg.schedule_signature)
+
+
+def run_history(r, coro, key):
+    """One history on its own virtual-time loop; a loop that runs dry while the history still waits is a hang."""
+    try:
+        vloop.run(coro)
+    except vloop.Hang as e:
+        r.bad(key, f'{e}')
+
+
+def multi_case(case, r):
+    topo = case['topology']
+    nlinks = len(MULTI_TOPOLOGIES[topo])
+    k = 0
+    for victim in range(nlinks):
+        for ending in MULTI_ENDINGS:
+            k += 1
+            if case.get('pick') and (k + case['pick'][0]) % case['pick'][1]:
+                continue
+            run_history(r, multi_history(case, r, topo, victim, ending, case['seed'] * 131 + k), 'multi/waiter/hang/history')
+    r.sample = {'kind': 'multi', 'topology': topo, 'steps': [list(s) for s in MULTI_TOPOLOGIES[topo]], 'endings': MULTI_ENDINGS}
+
+
+# =============================================================================
+# Event orders and failure reports a controller may legally choose, which bumble's own virtual controller never
+# produces (kind 'order'): the rig's taps reorder / replace / inject controller-to-host packets
+# =============================================================================
+def hci_event(code, params):
+    return bytes([0x04, code, len(params)]) + bytes(params)
+
+
+def ev_command_status(opcode, status=0x00):
+    return hci_event(0x0F, bytes([status, 1]) + opcode.to_bytes(2, 'little'))
+
+
+def ev_disconnection_complete(status, handle, reason):
+    return hci_event(0x05, bytes([status]) + handle.to_bytes(2, 'little') + bytes([reason]))
+
+
+def ev_connection_complete(status, handle, bd_addr, link_type=0x01):
+    return hci_event(0x03, bytes([status]) + handle.to_bytes(2, 'little') + bytes(bd_addr) + bytes([link_type, 0]))
+
+
+def ev_connection_request(bd_addr, link_type=0x01):
+    return hci_event(0x04, bytes(bd_addr) + bytes([0x0C, 0x02, 0x5A]) + bytes([link_type]))
+
+
+def ev_le_connection_complete_failed(status, enhanced):
+    # Vol 4 Part E 7.7.65.1 / 7.7.65.10: with a non-zero status every other parameter is zero
+    if enhanced:
+        return hci_event(0x3E, bytes([0x0A, status]) + bytes(29))
+    return hci_event(0x3E, bytes([0x01, status]) + bytes(17))
+
+
+def ev_encryption_change(status, handle, enabled, v2=False):
+    if v2:
+        return hci_event(0x59, bytes([status]) + handle.to_bytes(2, 'little') + bytes([enabled, 16 if enabled else 0]))
+    return hci_event(0x08, bytes([status]) + handle.to_bytes(2, 'little') + bytes([enabled]))
+
+
+def ev_key_refresh_complete(status, handle):
+    return hci_event(0x30, bytes([status]) + handle.to_bytes(2, 'little'))
+
+
+def ev_authentication_complete(status, handle):
+    return hci_event(0x06, bytes([status]) + handle.to_bytes(2, 'little'))
+
+
+OP_DISCONNECT = 0x0406
+OP_CREATE_CONNECTION = 0x0405
+OP_ACCEPT_CONNECTION = 0x0409
+OP_AUTHENTICATION_REQUESTED = 0x0411
+OP_SET_CONNECTION_ENCRYPTION = 0x0413
+OP_LE_CREATE_CONNECTION = 0x200D
+OP_LE_EXTENDED_CREATE_CONNECTION = 0x2043
+OP_LE_ENABLE_ENCRYPTION = 0x2019
+
+
+class Answered:
+    """Host-to-controller filter: the next command with one of these opcodes (and this connection handle, when given) never
+    reaches the virtual controller; the harness answers it with the given controller-to-host packets: the Command Status
+    at once, the rest `delay` virtual seconds later."""
+
+    def __init__(self, w, dev, opcodes, answer, handle=None, delay=0.0):
+        self.w, self.dev, self.opcodes, self.answer, self.handle, self.delay = w, dev, tuple(opcodes), answer, handle, delay
+        self.seen = None
+        w.rg.h2c[dev].filters.append(self)
+
+    def __call__(self, pkt):
+        if self.seen is not None or pkt[0] != 0x01:
+            return pkt
+        opcode = int.from_bytes(pkt[1:3], 'little')
+        if opcode not in self.opcodes:
+            return pkt
+        if self.handle is not None and (int.from_bytes(pkt[4:6], 'little') & 0xFFF) != self.handle:
+            return pkt
+        self.seen = pkt
+        pipe = self.w.rg.c2h[self.dev]
+        pipe.on_packet(ev_command_status(opcode))
+        rest = self.answer(opcode) if callable(self.answer) else self.answer
+
+        def later():
+            for p in rest:
+                pipe.on_packet(p)
+        if self.delay:
+            self.w.rg.loop.call_later(self.delay, later)
+        else:
+            later()
+        return None
+
+
+class AdvOrder:
+    """Controller-to-host filter of an advertiser: chooses where LE Advertising Set Terminated goes relative to the LE
+    (Enhanced) Connection Complete of the connection that ended the advertising.
+      normal                 Connection Complete, then Advertising Set Terminated (what the virtual controller does)
+      terminated-first       Advertising Set Terminated, then Connection Complete
+      terminated-after-data  Connection Complete, the first ACL data packet of the new connection, then Advertising Set Terminated"""
+
+    def __init__(self, w, dev):
+        self.w, self.dev, self.mode = w, dev, 'normal'
+        self.held_cc = self.held_term = None
+        self.swaps = 0
+        w.rg.c2h[dev].filters.append(self)
+
+    def emit(self, pkt):
+        pipe = self.w.rg.c2h[self.dev]
+        self.w.rg.log_hci(self.dev, 'c2h', pkt)
+        pipe.fifo.push(pipe._deliver, pkt)
+
+    def __call__(self, pkt):
+        if pkt[0] == 0x04 and pkt[1] == 0x3E:
+            sub = pkt[3]
+            if sub in (0x01, 0x0A, 0x29) and pkt[4] == 0 and pkt[7] == 0x01 and self.mode == 'terminated-first':
+                self.held_cc = pkt
+                return None
+            if sub == 0x12:
+                if self.held_cc is not None:
+                    held, self.held_cc = self.held_cc, None
+                    self.swaps += 1
+                    self.emit(pkt)
+                    return held
+                if self.mode == 'terminated-after-data' and pkt[4] == 0:
+                    self.held_term = pkt
+                    return None
+        elif pkt[0] == 0x02 and self.held_term is not None:
+            held, self.held_term = self.held_term, None
+            self.swaps += 1
+            self.emit(pkt)
+            return held
+        return pkt
+
+
+ADV_MODES = ['normal', 'terminated-first', 'terminated-after-data']
+ADV_SETS = ['set-random', 'set-public', 'legacy-api']
+
+
+async def order_ext_adv(case, r, plan_, seed):
+    """plan_: list of (advertising set kind, event order, who disconnects) - consecutive connections to ONE peripheral whose
+    controller has LE Extended Advertising; the virtual controller hands the same connection handle out every time."""
+    from bumble import hci
+    from bumble.device import AdvertisingParameters
+    w = await World(r, seed, n=2, ext_adv=(1,), max_delay=seed % 3, prefix='order/ext-adv').start()
+    rg = w.rg
+    d0, d1 = rg.devices
+    adv = AdvOrder(w, 1)
+    own_random = hci.Address('C4:C4:C4:C4:C4:C4', hci.Address.RANDOM_DEVICE_ADDRESS)
+    try:
+        if not d1.supports_le_extended_advertising:
+            raise RuntimeError('the peripheral does not use extended advertising')
+        previous = None
+        for n, (set_kind, mode, by) in enumerate(plan_):
+            lk = Lk('le', 0, 1)
+            tag = f'{mode}' + ('/handle-used-before' if previous is not None else '')
+            adv.mode = mode
+            before = [len(x) for x in w.conn_events]
+            known = set(id(c) for c in d1.connections.values())
+            if set_kind == 'set-random':
+                lk.adv_address = own_random
+                aset = await w.call('create-advertising-set', d1.create_advertising_set(
+                    advertising_parameters=AdvertisingParameters(own_address_type=hci.OwnAddressType.RANDOM),
+                    random_address=own_random))
+            elif set_kind == 'set-public':
+                lk.adv_address = hci.Address(rg.addresses[1], hci.Address.PUBLIC_DEVICE_ADDRESS)
+                aset = await w.call('create-advertising-set', d1.create_advertising_set(
+                    advertising_parameters=AdvertisingParameters(own_address_type=hci.OwnAddressType.PUBLIC)))
+            else:
+                lk.adv_address = hci.Address(rg.random_addresses[1], hci.Address.RANDOM_DEVICE_ADDRESS)
+                aset = None
+                await w.call('start-advertising', d1.start_advertising(auto_restart=False))
+            cc = await w.call('connect-le', d0.connect(lk.adv_address))
+            await rg.quiesce()
+            w.watch(lk, 0, cc)
+            w.links.append(lk)
+            if mode == 'terminated-after-data':
+                # the first data of the new connection overtakes the Advertising Set Terminated event
+                d0.send_l2cap_pdu(cc.handle, PING_CID, b'early')
+                await rg.quiesce()
+            r.ev('order_ext_adv_connections')
+            r.ev(f'order_ext_adv_{mode}')
+            if previous is not None and previous == cc.handle:
+                r.ev('order_connections_on_a_handle_used_before')
+            new = [c for c in d1.connections.values() if id(c) not in known]
+            if len(new) == 1:
+                w.watch(lk, 1, new[0])
+            w.check_reported(lk, before, tag)
+            if len(new) != 1:
+                r.bad(w.k('tables', 'peripheral-connection-missing', tag), f'device.connections of the peripheral: {d1.connections}')
+                raise OpFailed('connect')
+            await w.settle(tag)
+            await w.ping_all(tag)
+            previous = new[0].handle
+            dead = await w.disconnect(lk, by)
+            await w.settle(f'disconnect-after-{mode}', dead)
+            if aset is not None and (seed + n) % 2:
+                await w.call('remove-advertising-set', aset.remove())
+            elif aset is None:
+                await w.call('stop-advertising', d1.stop_advertising())
+        r.ev('order_adv_event_swaps', adv.swaps)
+        r.sig('order', 'ext-adv', tuple(plan_))
+    except OpFailed:
+        r.ev('order_histories_cut_short')
+    finally:
+        w.finish()
+    r.ev('order_histories')
+    r.evals()
+    r.sched.add(rg.schedule_signature)
+
+
+async def order_refused_disconnect(case, r, kind, side, status, delay, seed):
+    """The controller accepts HCI_Disconnect (Command Status: pending) and then reports with a Disconnection Complete whose
+    status is not SUCCESS that the link is still there (Vol 4 Part E 7.7.5). The link must stay whole, the callers waiting
+    for the disconnection (disconnect(), sustain()) must be released; a later, genuine disconnection works, and so does
+    the next connection."""
+    w = await World(r, seed, n=3, max_delay=seed % 3, prefix='order/refused-disconnect').start()
+    rg = w.rg
+    try:
+        acl = await w.connect('le' if kind in ('le', 'cis') else 'bredr', 0, 1)
+        v = acl if kind in ACL_KINDS else await (w.add_sco(acl) if kind == 'sco' else w.add_cis(acl))
+        by = await w.connect('le' if kind in ('bredr', 'sco') else 'bredr', 0, 2)    # a bystander on the same device
+        await w.settle('set-up')
+        obj = v.obj[side]
+        Answered(w, side, [OP_DISCONNECT], [ev_disconnection_complete(status, obj.handle, 0)], handle=obj.handle, delay=delay)
+        waiters = [('disconnect', asyncio.ensure_future(obj.disconnect()))]
+        if kind in ACL_KINDS:
+            waiters.append(('sustain', asyncio.ensure_future(obj.sustain())))
+        r.ev('order_refused_disconnections')
+        for name, t in waiters:
+            r.ev('order_waiters_judged')
+            r.ev('oracle_evals')
+            try:
+                await vloop.vwait(asyncio.shield(t))
+                r.ev('order_waiter_returned_normally_after_refusal')
+            except vloop.Hang:
+                if not t.done():
+                    t.cancel()
+                    r.bad(w.k('waiter', 'hang', name, kind), f'dev{side}: {name}() on the {kind} link still pending {vloop.T_V} virtual '
+                                                             f's after Disconnection Complete(status={status:#x})')
+            except Exception:
+                r.ev('order_waiter_ended_with_error')
+        tag = f'{kind}-refused'
+        await w.settle(tag)
+        await w.ping_all(tag)
+        # now for good
+        dead = await w.disconnect(v, side)
+        await w.settle(f'{kind}-disconnect-after-refusal', dead)
+        await w.ping_all(f'{kind}-disconnect-after-refusal')
+        if kind in ACL_KINDS:
+            await w.connect(kind, 0, 1, tag=f're-connect-{kind}')
+        else:
+            await (w.add_sco(acl) if kind == 'sco' else w.add_cis(acl))
+        await w.settle(f're-made-{kind}')
+        for lk in [x for x in w.links if x.kind in ACL_KINDS and any(x.up.values())]:
+            dead = await w.disconnect(lk, lk.a)
+            await w.settle(f'{lk.kind}-disconnect', dead)
+        r.sig('order', 'refused-disconnect', kind, side, status, delay)
+    except OpFailed:
+        r.ev('order_histories_cut_short')
+    finally:
+        w.finish()
+    r.ev('order_histories')
+    r.evals()
+    r.sched.add(rg.schedule_signature)
+
+
+async def order_failed_connect(case, r, variant, status, delay, seed):
+    """A connection that is reported as failed (Connection Complete / LE (Enhanced) Connection Complete with a non-zero
+    status): connect() ends, nothing is left of the attempt, and the next connection between the same two devices is
+    reported once, with the right addresses."""
+    from bumble import hci
+    from bumble.core import PhysicalTransport
+    w = await World(r, seed, n=3, max_delay=seed % 3, prefix='order/failed-connect').start()
+    rg = w.rg
+    d0, d1 = rg.devices[0], rg.devices[1]
+    pub = [bytes(hci.Address(a, hci.Address.PUBLIC_DEVICE_ADDRESS)) for a in rg.addresses]
+    try:
+        by = await w.connect('le' if variant.startswith('bredr') else 'bredr', 0, 2)     # a bystander
+        await w.settle('set-up')
+        before = [len(x) for x in w.conn_events]
+        t = None
+        if variant in ('le', 'le-enhanced'):
+            Answered(w, 0, [OP_LE_CREATE_CONNECTION, OP_LE_EXTENDED_CREATE_CONNECTION],
+                     [ev_le_connection_complete_failed(status, variant == 'le-enhanced')], delay=delay)
+            t = asyncio.ensure_future(d0.connect(hci.Address(rg.random_addresses[1], hci.Address.RANDOM_DEVICE_ADDRESS)))
+            kind = 'le'
+        elif variant == 'bredr':
+            Answered(w, 0, [OP_CREATE_CONNECTION], [ev_connection_complete(status, 0, pub[1])], delay=delay)
+            t = asyncio.ensure_future(d0.connect(hci.Address(rg.addresses[1], hci.Address.PUBLIC_DEVICE_ADDRESS),
+                                                 transport=PhysicalTransport.BR_EDR))
+            kind = 'bredr'
+        else:
+            # incoming: the controller of device 1 reports a Connection Request of device 0, the host accepts it, and the
+            # connection then fails (for instance: Connection Accept Timeout Exceeded)
+            a = Answered(w, 1, [OP_ACCEPT_CONNECTION], [ev_connection_complete(status, 0, pub[0])], delay=delay)
+            rg.c2h[1].on_packet(ev_connection_request(pub[0]))
+            kind = 'bredr'
+        r.ev('order_failed_connections')
+        if t is not None:
+            r.ev('order_waiters_judged')
+            r.ev('oracle_evals')
+            try:
+                await vloop.vwait(asyncio.shield(t))
+                r.bad(w.k('waiter', 'returned-a-connection', variant), f'connect() returned {t.result()} for a connection reported as '
+                                                                       f'failed with status {status:#x}')
+            except vloop.Hang:
+                if not t.done():
+                    t.cancel()
+                    r.bad(w.k('waiter', 'hang', 'connect', variant), f'connect() still pending {vloop.T_V} virtual s after the '
+                                                                     f'connection was reported as failed with status {status:#x}')
+            except Exception:
+                r.ev('order_waiter_ended_with_error')
+        else:
+            await asyncio.sleep(delay + 1.0)
+            await rg.quiesce()
+            if a.seen is None:
+                raise RuntimeError('the host did not accept the incoming connection')
+        tag = f'{variant}-failed'
+        await w.settle(tag)
+        r.ev('oracle_evals', 2)
+        r.ev('order_leftover_checks')
+        for dev in (0, 1):
+            d = rg.devices[dev]
+            if [len(x) for x in w.conn_events][dev] != before[dev]:
+                r.bad(w.k('connection-reported', 'for-a-failed-connection', variant), f'dev{dev}: {w.conn_events[dev][before[dev]:]}')
+            if d.pending_connections:
+                r.bad(w.k('leftover', 'device.pending_connections', tag),
+                      f'dev{dev}: {list(d.pending_connections.values())} after the connection failed')
+            if getattr(d, 'le_connecting', False) or getattr(d, 'connect_own_address_type', None) is not None:
+                r.bad(w.k('leftover', 'device.le_connecting', tag), f'dev{dev}: le_connecting={d.le_connecting} '
+                                                                    f'connect_own_address_type={d.connect_own_address_type}')
+        await w.ping_all(tag)
+        lk = await w.connect(kind, 0, 1, tag=f'connect-after-{variant}-failed')
+        await w.settle(f'connect-after-{variant}-failed')
+        await w.ping_all(f'connect-after-{variant}-failed')
+        for lk in [x for x in w.links if any(x.up.values())]:
+            dead = await w.disconnect(lk, lk.b)
+            await w.settle(f'{lk.kind}-disconnect', dead)
+        r.sig('order', 'failed-connect', variant, status, delay)
+    except OpFailed:
+        r.ev('order_histories_cut_short')
+    finally:
+        w.finish()
+    r.ev('order_histories')
+    r.evals()
+    r.sched.add(rg.schedule_signature)
+
+
+async def order_failed_security(case, r, variant, status, delay, seed):
+    """Encryption Change / Encryption Key Refresh Complete / Authentication Complete with a failure status while
+    encrypt() / authenticate() waits. The events that answer the pending request must release the caller; in every case
+    the link stays whole, and whoever still waits is released when the link goes."""
+    from bumble.pairing import PairingConfig, PairingDelegate
+    w = World(r, seed, n=3, max_delay=seed % 3, prefix='order/failed-security')
+    await w.start()
+    rg = w.rg
+    try:
+        le = variant.startswith('le')
+        if le:
+            for d in rg.devices:
+                d.pairing_config_factory = lambda conn: PairingConfig(
+                    sc=True, mitm=False, bonding=True, delegate=PairingDelegate(),
+                    identity_address_type=PairingConfig.AddressType.RANDOM)
+        v = await w.connect('le' if le else 'bredr', 0, 1)
+        by = await w.connect('bredr' if le else 'le', 0, 2)
+        c0 = v.obj[0]
+        if le:
+            await w.call('pair', c0.pair())
+            await rg.quiesce()
+        h = c0.handle
+        must_end = True
+        if variant == 'le-encryption-change':
+            Answered(w, 0, [OP_LE_ENABLE_ENCRYPTION], [ev_encryption_change(status, h, 0)], handle=h, delay=delay)
+            t = asyncio.ensure_future(c0.encrypt())
+        elif variant == 'le-encryption-change-v2':
+            Answered(w, 0, [OP_LE_ENABLE_ENCRYPTION], [ev_encryption_change(status, h, 0, v2=True)], handle=h, delay=delay)
+            t = asyncio.ensure_future(c0.encrypt())
+        elif variant == 'le-key-refresh':
+            # (encrypt() does not listen for the key refresh events: it is only required to end with the link)
+            Answered(w, 0, [OP_LE_ENABLE_ENCRYPTION], [ev_key_refresh_complete(status, h)], handle=h, delay=delay)
+            t = asyncio.ensure_future(c0.encrypt())
+            must_end = False
+        elif variant == 'bredr-authentication':
+            Answered(w, 0, [OP_AUTHENTICATION_REQUESTED], [ev_authentication_complete(status, h)], handle=h, delay=delay)
+            t = asyncio.ensure_future(c0.authenticate())
+        else:
+            Answered(w, 0, [OP_SET_CONNECTION_ENCRYPTION], [ev_encryption_change(status, h, 0)], handle=h, delay=delay)
+            t = asyncio.ensure_future(c0.encrypt())
+        r.ev('order_failed_security_procedures')
+        await asyncio.sleep(delay + 1.0)
+        await rg.quiesce()
+        ended_at_event = t.done()
+        if must_end:
+            r.ev('order_waiters_judged')
+            r.ev('oracle_evals')
+            try:
+                await vloop.vwait(asyncio.shield(t))
+                r.ev('order_waiter_returned_normally_after_refusal')
+            except vloop.Hang:
+                if not t.done():
+                    r.bad(w.k('waiter', 'hang', variant), f'still pending {vloop.T_V} virtual s after the failure event '
+                                                          f'(status {status:#x})')
+            except Exception:
+                r.ev('order_waiter_ended_with_error')
+        tag = f'{variant}-failed'
+        await w.settle(tag)
+        await w.ping_all(tag)
+        dead = await w.disconnect(v, 1 if seed % 2 else 0)
+        await w.settle(f'disconnect-after-{variant}-failed', dead)
+        r.ev('order_waiters_judged')
+        r.ev('oracle_evals')
+        if not t.done():
+            try:
+                await vloop.vwait(asyncio.shield(t))
+            except vloop.Hang:
+                if not t.done():
+                    t.cancel()
+                    r.bad(w.k('waiter', 'hang', variant, 'after-the-link-is-gone'), 'still pending after the disconnection')
+            except BaseException as e:
+                if not isinstance(e, (Exception, asyncio.CancelledError)):
+                    raise
+        r.ev('order_waiter_ended_at_the_event' if ended_at_event else 'order_waiter_ended_with_the_link')
+        await w.ping_all(f'disconnect-after-{variant}-failed')
+        dead = await w.disconnect(by, 0)
+        await w.settle('bystander-disconnect', dead)
+        r.sig('order', 'failed-security', variant, status, delay)
+    except OpFailed:
+        r.ev('order_histories_cut_short')
+    finally:
+        w.finish()
+    r.ev('order_histories')
+    r.evals()
+    r.sched.add(rg.schedule_signature)
+
+
+def order_plan(tier, seed):
+    """The variants of each scenario, as JSON-able descriptors."""
+    rng = random.Random(seed * 7919 + 17)
+    out = []
+    # consecutive connections of an extended advertiser: every pair of orders for the first two connections
+    for m1 in ADV_MODES:
+        for m2 in ADV_MODES:
+            for rep in range(3 if tier == 'quick' else 8):
+                sets = [rng.choice(ADV_SETS) for _ in range(3)]
+                if rep == 0:
+                    sets[0], sets[1] = 'set-random', 'set-public'
+                out.append({'scenario': 'ext-adv', 'plan': [[sets[0], m1, rng.choice([0, 1])], [sets[1], m2, rng.choice([0, 1])],
+                                                            [sets[2], rng.choice(ADV_MODES), rng.choice([0, 1, 'both'])]]})
+    for kind in ('le', 'bredr', 'sco', 'cis'):
+        for side in (0, 1):
+            for status in ((0x0C,) if tier == 'quick' else (0x0C, 0x1F, 0x02)):
+                out.append({'scenario': 'refused-disconnect', 'link': kind, 'side': side, 'status': status,
+                            'delay': rng.choice([0.0, 2.0])})
+    for variant, statuses in (('le', (0x3E, 0x02)), ('le-enhanced', (0x3E,)), ('bredr', (0x04, 0x0B)), ('bredr-incoming', (0x10,))):
+        for status in statuses:
+            for delay in ((rng.choice([0.0, 2.0]),) if tier == 'quick' else (0.0, 2.0)):
+                out.append({'scenario': 'failed-connect', 'variant': variant, 'status': status, 'delay': delay})
+    for variant, status in (('le-encryption-change', 0x06), ('le-encryption-change-v2', 0x06), ('le-key-refresh', 0x3D),
+                            ('bredr-authentication', 0x05), ('bredr-encryption-change', 0x25)):
+        for delay in ((rng.choice([0.0, 2.0]),) if tier == 'quick' else (0.0, 2.0)):
+            out.append({'scenario': 'failed-security', 'variant': variant, 'status': status, 'delay': delay})
+    return out
+
+
+def order_run(case, r):
+    sc = case['scenario']
+    if sc == 'ext-adv':
+        return order_ext_adv(case, r, [tuple(x) for x in case['plan']], case['seed'])
+    if sc == 'refused-disconnect':
+        return order_refused_disconnect(case, r, case['link'], case['side'], case['status'], case['delay'], case['seed'])
+    if sc == 'failed-connect':
+        return order_failed_connect(case, r, case['variant'], case['status'], case['delay'], case['seed'])
+    return order_failed_security(case, r, case['variant'], case['status'], case['delay'], case['seed'])
+
+
 def run_case(case, r: R):
     if case.get('kind') == 'stale':
         return stale_object(case, r)
     if case.get('kind') == 'real-transport':
         return asyncio.run(real_transport(case, r))
+    if case.get('kind') == 'multi':
+        return multi_case(case, r)
+    if case.get('kind') == 'multi-random':
+        for i in range(case['count']):
+            run_history(r, multi_random(case, r, case['seed'] * 131 + i), 'multi/waiter/hang/history')
+        return None
+    if case.get('kind') == 'order':
+        return run_history(r, order_run(case, r), f'order/{case["scenario"]}/waiter/hang/history')
     proc, cut = case['proc'], case['cut']
     try:
         n, _ = vloop.run(scenario(case, R({}), proc, cut, None))
@@ -809,14 +2042,26 @@ def run_case(case, r: R):
     r.sample = {'procedure': proc, 'cut': cut, 'messages_in_dry_run': n, 'cut_points': pts}
 
 
-LEVEL_TEXT = ('Fault enumeration: for 24 procedures (17 on the ACL connection, 4 on CIS links and 3 on an eSCO link riding '
+LEVEL_TEXT = ('Fault enumeration: for 33 procedures (26 on the ACL connection - among them enhanced ATT bearers, queued '
+              'indications, a cancelled channel disconnect, an AVDTP command -, 4 on CIS links and 3 on an eSCO link riding '
               'on it) x 4 cut kinds the link is dropped or the HCI transport lost at every '
               'HCI-message index of the procedure (thorough; up to 150 indices per pair in quick, which is every index for all but the longest procedures), each on a '
               'fresh rig; afterwards the waiter must have ended within 300 virtual seconds, host/device/controller '
               'connection tables must agree and no per-connection state of the dead connection may remain in GATT '
               'server, SMP, L2CAP or the outbound queues (ACL, LE ACL, ISO); no CIS / SCO / BIS link may remain in the '
               'host, device or controller tables, and every established CisLink / ScoLink object must have got exactly one '
-              'disconnection event.')
+              'disconnection event. Several links at once: 18 topologies of 2-4 links (LE / BR/EDR ACLs, eSCO, CIS) on '
+              'three devices x every link as the victim x 5 endings (either side, both, either transport lost), re-made on '
+              'the freed handle and torn down link by link, plus seeded walks; after every step the handles announced over '
+              'HCI (independent ledger), host, device and controller tables must be the same set per link kind and match '
+              'the number of links the harness has up, live links keep their objects and get no disconnection event, data '
+              'flows on every live ACL to the right end, no handle names two links. Controller behaviour bumble\'s own '
+              'controller never shows is produced by rewriting / answering HCI packets in the rig: Advertising Set '
+              'Terminated before / after / long after Connection Complete on re-used handles, refused disconnections of '
+              'all four link kinds, failed outgoing / incoming connections, failed encryption / key refresh / '
+              'authentication: waiters end, nothing is left, the next connection is reported once with the right addresses.')
 LEVEL_NOTE = ('Trusted: rig taps, the leftover inspector in checks/c16.py (reads the per-connection tables by name), '
-              'virtual-time loop. Cuts land at HCI-message granularity, not at arbitrary instructions.')
+              'virtual-time loop, the HCI event layouts in vlib/ref_hci_links.py and in the injected events. Cuts land at '
+              'HCI-message granularity, not at arbitrary instructions; multi-link histories are judged at quiescence between '
+              'operations, not inside them.')
 TECHNIQUE = 'runtime monitoring: fault injection at every message boundary + state-table invariants at quiescence'
